@@ -219,14 +219,21 @@ def addBooster (src : String) (sk : EndKind) (multi : Bool) (l : List (Elem α))
   | .roadm, .fiber u p :: rest => .edfa (boosterName src u) (newAmp multi) :: .fiber u p :: rest
   | _, _ => l
 
-/-- `add_inline_amplifier`: the new amplifier is a Multiband_amplifier iff the OMS DOWNSTREAM of the fibre
-(`get_oms_edge_list(next_node)`) already holds one -/
-def addInline : List (Elem α) → List (Elem α)
+/-- `add_inline_amplifier`: an amplifier of kind `multi` (the kind of the OMS, `omsKind`) between two fibres -/
+def addInline (multi : Bool) : List (Elem α) → List (Elem α)
   | [] => []
   | x :: rest =>
     match x, rest with
-    | .fiber u _, .fiber _ _ :: _ => x :: .edfa (inlineName u) (newAmp (hasMulti rest)) :: addInline rest
-    | _, _ => x :: addInline rest
+    | .fiber u _, .fiber _ _ :: _ => x :: .edfa (inlineName u) (newAmp multi) :: addInline multi rest
+    | _, _ => x :: addInline multi rest
+
+/-- the unrepaired `add_inline_amplifier`: a Multiband_amplifier iff the OMS DOWNSTREAM of the fibre already held one -/
+def addInlineOld : List (Elem α) → List (Elem α)
+  | [] => []
+  | x :: rest =>
+    match x, rest with
+    | .fiber u _, .fiber _ _ :: _ => x :: .edfa (inlineName u) (newAmp (hasMulti rest)) :: addInlineOld rest
+    | _, _ => x :: addInlineOld rest
 
 /-- will `add_roadm_preamp` / `add_roadm_booster` insert something on this (split) line? -/
 def preampInserted (dk : EndKind) (l : List (Elem α)) : Bool :=
@@ -239,25 +246,28 @@ def boosterInserted (sk : EndKind) (l : List (Elem α)) : Bool :=
   | .roadm, .fiber _ _ :: _ => true
   | _, _ => false
 
-/-- `add_roadm_booster`: Multiband iff the OMS already holds a Multiband_amplifier, or holds no Edfa and the ROADM has
-more than one design band -/
-def boosterRule (bands : Nat) (oms : List (Elem α)) : Bool := hasMulti oms || (!hasSingle oms && decide (1 < bands))
+/-- `_oms_needs_multiband`: the kind of every amplifier auto-design inserts on an OMS — Multiband iff the OMS already holds
+a Multiband_amplifier, or holds no Edfa and starts at a ROADM with more than one design band (the bands of that
+degree if the user defined them, else the ROADM's). The same for booster, preamp and in-line amplifiers, whatever
+the order of insertion (repaired behaviour). -/
+def omsKind (sk : EndKind) (bands : Nat) (oms : List (Elem α)) : Bool :=
+  hasMulti oms || (!hasSingle oms && sk == .roadm && decide (1 < bands))
 
-/-- `add_roadm_preamp`: Multiband iff the OMS already holds a Multiband_amplifier (design bands are not consulted) -/
-def preampRule (oms : List (Elem α)) : Bool := hasMulti oms
+/-- the unrepaired rules: the booster looked at `roadm.design_bands`, the preamp only at the amplifiers already in the OMS -/
+def boosterRuleOld (bands : Nat) (oms : List (Elem α)) : Bool := hasMulti oms || (!hasSingle oms && decide (1 < bands))
+def preampRuleOld (oms : List (Elem α)) : Bool := hasMulti oms
 
-/-- the kinds of booster and preamp of one line. The ROADMs are visited in node order, each adding its preamps and then
-its boosters, so the result depends on which end of the line is visited first (`dstFirst`): the amplifier inserted
-second sees the one inserted first in its OMS. -/
-def endAmpKinds (sk dk : EndKind) (bands : Nat) (dstFirst : Bool) (l : List (Elem α)) : Bool × Bool :=
+/-- the unrepaired kinds of booster and preamp of one line: the ROADMs were visited in node order, each adding its
+preamps and then its boosters, so the result depended on which end of the line was visited first (`dstFirst`) -/
+def endAmpKindsOld (sk dk : EndKind) (bands : Nat) (dstFirst : Bool) (l : List (Elem α)) : Bool × Bool :=
   if dstFirst then
-    let pm := preampRule l
+    let pm := preampRuleOld l
     let seen := if preampInserted dk l then l ++ [.edfa "" (newAmp pm)] else l
-    (boosterRule bands seen, pm)
+    (boosterRuleOld bands seen, pm)
   else
-    let bm := boosterRule bands l
+    let bm := boosterRuleOld bands l
     let seen := if boosterInserted sk l then .edfa "" (newAmp bm) :: l else l
-    (bm, preampRule seen)
+    (bm, preampRuleOld seen)
 
 structure Chain (α : Type) where
   src : String
@@ -265,17 +275,24 @@ structure Chain (α : Type) where
   line : List (Elem α)
   dst : String
   dstKind : EndKind
-  /-- `len(roadm.design_bands)` of the source ROADM as given by the user -/
+  /-- number of design bands of this degree of the source ROADM as given by the user (`per_degree_design_bands` of the
+  degree if defined, else `design_bands`) -/
   srcBands : Nat := 1
-  /-- the destination ROADM comes before the source ROADM in `network.nodes()` -/
+  /-- the destination ROADM comes before the source ROADM in `network.nodes()` (irrelevant since the repair) -/
   dstFirst : Bool := false
 
-/-- `add_missing_elements_in_network` on one chain: split every fibre, then preamp/booster of the end ROADMs (their
-kinds by `endAmpKinds`), then the inline amplifiers -/
+/-- `add_missing_elements_in_network` on one chain: split every fibre, then preamp/booster of the end ROADMs, then the
+inline amplifiers, all of the kind of the OMS (`omsKind`) -/
 def addMissingLine (c : SplitCfg α) (ch : Chain α) : List (Elem α) :=
   let s := splitLine c ch.line
-  let k := endAmpKinds ch.srcKind ch.dstKind ch.srcBands ch.dstFirst s
-  addInline (addBooster ch.src ch.srcKind k.1 (addPreamp ch.dst ch.dstKind k.2 s))
+  let m := omsKind ch.srcKind ch.srcBands s
+  addInline m (addBooster ch.src ch.srcKind m (addPreamp ch.dst ch.dstKind m s))
+
+/-- the unrepaired completion (kinds by `endAmpKindsOld` / `addInlineOld`) -/
+def addMissingLineOld (c : SplitCfg α) (ch : Chain α) : List (Elem α) :=
+  let s := splitLine c ch.line
+  let k := endAmpKindsOld ch.srcKind ch.dstKind ch.srcBands ch.dstFirst s
+  addInlineOld (addBooster ch.src ch.srcKind k.1 (addPreamp ch.dst ch.dstKind k.2 s))
 
 /-- single-band and multiband amplifiers in one OMS: `check_oms_single_type` raises NetworkTopologyError; an OMS of
 single-band amplifiers leaving a ROADM with several design bands is rejected by `set_per_degree_design_band`
